@@ -1,0 +1,53 @@
+//go:build verif
+
+package app
+
+// Contracts for the proposal handler (vote-extension data injected into blocks), read by /verif/bin/govc.
+// Comment-only: compiled only with -tags verif and adds no code.
+//
+// The proposer injects a JSON transaction (VoteExtTx) as req.Txs[0]; validators decode it again in
+// ProcessProposal and in PreBlocker. jsonlen("app.VoteExtTx.<path>", tx) is the length of that list in the value
+// json.Unmarshal decodes from the bytes tx (decoding is deterministic). aligned(tx): the parallel lists of the
+// injected transaction have equal lengths -- PreBlocker indexes them with one index.
+
+//@ define aligned(tx) = jsonlen("app.VoteExtTx.OpAndEVMAddrs.EVMAddresses", tx) == jsonlen("app.VoteExtTx.OpAndEVMAddrs.OperatorAddresses", tx) && jsonlen("app.VoteExtTx.ValsetSigs.Timestamps", tx) == jsonlen("app.VoteExtTx.ValsetSigs.OperatorAddresses", tx) && jsonlen("app.VoteExtTx.ValsetSigs.Signatures", tx) == jsonlen("app.VoteExtTx.ValsetSigs.OperatorAddresses", tx) && jsonlen("app.VoteExtTx.OracleAttestations.Snapshots", tx) == jsonlen("app.VoteExtTx.OracleAttestations.OperatorAddresses", tx) && jsonlen("app.VoteExtTx.OracleAttestations.Attestations", tx) == jsonlen("app.VoteExtTx.OracleAttestations.OperatorAddresses", tx)
+
+//@ func (h *ProposalHandler).CheckInitialSignaturesFromLastCommit(ctx, commit) (ops, evms, err)
+//@ requires [handler_present] h != nil
+//@ ensures [one_address_per_operator] err == nil && len(ops) == len(evms)
+//@ loop 0 "for _, vote := range commit.Votes"
+//@ loop 0 invariant [lists_grow_together] len(operatorAddresses) == len(evmAddresses)
+
+//@ func (h *ProposalHandler).CheckValsetSignaturesFromLastCommit(ctx, commit) (ops, timestamps, sigs, err)
+//@ requires [handler_present] h != nil
+//@ ensures [one_timestamp_and_signature_per_operator] err == nil && len(ops) == len(timestamps) && len(ops) == len(sigs)
+//@ loop 0 "for _, vote := range commit.Votes"
+//@ loop 0 invariant [lists_grow_together] len(operatorAddresses) == len(timestamps) && len(operatorAddresses) == len(signatures)
+
+//@ func (h *ProposalHandler).CheckOracleAttestationsFromLastCommit(ctx, commit) (atts, snaps, ops, err)
+//@ requires [handler_present] h != nil
+//@ ensures [one_snapshot_and_attestation_per_operator] err == nil && len(ops) == len(snaps) && len(ops) == len(atts)
+//@ loop 0 "for _, vote := range commit.Votes"
+//@ loop 0 invariant [lists_grow_together] len(operatorAddresses) == len(snapshots) && len(operatorAddresses) == len(attestations)
+//@ loop 1 "for _, attestation := range voteExt.OracleAttestations"
+//@ loop 1 invariant [lists_grow_together] len(operatorAddresses) == len(snapshots) && len(operatorAddresses) == len(attestations)
+
+//@ func (h *ProposalHandler).SetEVMAddresses(ctx, operatorAddresses, evmAddresses) (err)
+//@ requires [handler_present] h != nil
+//@ requires [one_address_per_operator] len(evmAddresses) == len(operatorAddresses)
+//@ modifies bridge.OperatorToEVMAddressMap
+
+//@ func (h *ProposalHandler).ProcessProposalHandler(ctx, req) (resp, err)
+//@ requires [handler_and_request_present] h != nil && req != nil
+//@ ensures [accepted_proposals_have_aligned_lists] err == nil && resp != nil && resp.Status == 1 && called(CheckOracleAttestationsFromLastCommit) ==> aligned(req.Txs[0])
+//@ ensures [accepted_proposals_were_checked_against_every_list] err == nil && resp != nil && resp.Status == 1 && called(CheckInitialSignaturesFromLastCommit) ==> called(CheckValsetSignaturesFromLastCommit) && called(CheckOracleAttestationsFromLastCommit)
+
+//@ func (h *ProposalHandler).PreBlocker(ctx, req) (res, err)
+//@ requires [handler_and_request_present] h != nil && req != nil
+//@ requires [injected_lists_are_aligned_as_ProcessProposal_accepted_them] len(req.Txs) > 0 ==> aligned(req.Txs[0])
+//@ requires [stored_validator_sets_have_members] (has(bridge.BridgeValset) ==> forall j in [0, len(bridge.BridgeValset.BridgeValidatorSet)) :: bridge.BridgeValset.BridgeValidatorSet[j] != nil) && forall t int :: forall j in [0, len(bridge.BridgeValsetByTimestampMap[t].BridgeValidatorSet)) :: bridge.BridgeValsetByTimestampMap[t].BridgeValidatorSet[j] != nil
+//@ modifies bridge.*, A_*
+
+// Assumed contract on the staking keeper behind app.StakingKeeper: a read.
+//@ func (sk StakingKeeper).GetValidatorByConsAddr(ctx, consAddr) (validator, err)
+//@ trusted
